@@ -361,6 +361,7 @@ func Run(r *common.Run) error {
 		formCase(c, r.Rnd.Uint64(), i%10 == 9, "random")
 	}
 	modelCases(c)
+	modelCases2(c)
 
 	// every registered type: generated values through every writer path
 	nVal := r.Pick(120, 1500)
